@@ -5,6 +5,7 @@ package main
 
 import (
 	"bufio"
+	"os"
 	"fmt"
 	"io"
 	"os/exec"
@@ -38,6 +39,7 @@ type Solver struct {
 	defined                         map[int]bool
 	ufDecl                          map[string]bool
 	Bytes                           int
+	OneShot                         bool
 	LastErr                         string
 }
 
@@ -138,6 +140,8 @@ func (s *Solver) readUntil(sentinel string, deadline time.Duration) ([]string, b
 	}
 }
 
+var slowSeq int
+
 type Model map[string]uint64
 
 type slevel struct {
@@ -203,6 +207,9 @@ func (s *Solver) Check(pc []*Term, extra []*Term, wantModel bool, values map[str
 	s.Queries++
 	if s.dead {
 		s.restart()
+	}
+	if s.OneShot {
+		return s.checkOneShot(pc, extra, wantModel, values)
 	}
 	var sb strings.Builder
 	// common prefix
@@ -304,6 +311,19 @@ func (s *Solver) Check(pc []*Term, extra []*Term, wantModel bool, values map[str
 		}
 	}
 	popQ()
+	if dir := os.Getenv("VERIF_SLOWLOG"); dir != "" && time.Since(t0) > 2*time.Second {
+		slowSeq++
+		var all []*Term
+		all = append(all, pc...)
+		all = append(all, extra...)
+		var fb strings.Builder
+		fb.WriteString(Script(all))
+		for _, a := range all {
+			fmt.Fprintf(&fb, "(assert %s)\n", a.ref())
+		}
+		fb.WriteString("(check-sat)\n")
+		os.WriteFile(fmt.Sprintf("%s/slow_%d_%d_%s.smt2", dir, os.Getpid(), slowSeq, verdict), []byte(fb.String()), 0o644)
+	}
 	switch verdict {
 	case Sat:
 		s.NSat++
@@ -376,4 +396,96 @@ func parseGetValues(s string) []uint64 {
 		i = k
 	}
 	return out
+}
+
+func (s *Solver) checkOneShot(pc []*Term, extra []*Term, wantModel bool, values map[string]*Term) (Verdict, Model) {
+	var all []*Term
+	all = append(all, pc...)
+	all = append(all, extra...)
+	roots := append([]*Term(nil), all...)
+	var names []string
+	for n, t := range values {
+		roots = append(roots, t)
+		names = append(names, n)
+	}
+	var sb strings.Builder
+	sb.WriteString("(reset)\n")
+	if strings.HasPrefix(s.kind, "cvc5") {
+		sb.WriteString("(set-logic ALL)\n")
+	} else {
+		sb.WriteString("(set-option :produce-models true)\n")
+	}
+	sb.WriteString(Script(roots))
+	for _, a := range all {
+		fmt.Fprintf(&sb, "(assert %s)\n", a.ref())
+	}
+	sb.WriteString("(check-sat)\n(echo \"@@cs\")\n")
+	s.Bytes += sb.Len()
+	s.stack = nil
+	s.defined = map[int]bool{}
+	s.ufDecl = map[string]bool{}
+	if _, err := io.WriteString(s.in, sb.String()); err != nil {
+		s.dead = true
+		s.NUnknown++
+		s.LastErr = "write: " + err.Error()
+		return Unknown, nil
+	}
+	lines, ok := s.readUntil("@@cs", s.timeout+5*time.Second)
+	if !ok {
+		s.LastErr = "timeout/no answer"
+		s.NUnknown++
+		s.restart()
+		return Unknown, nil
+	}
+	verdict := Unknown
+	for _, l := range lines {
+		if strings.Contains(l, "(error") {
+			s.LastErr = l
+			s.NUnknown++
+			s.restart()
+			return Unknown, nil
+		}
+		switch strings.TrimSpace(l) {
+		case "sat":
+			verdict = Sat
+		case "unsat":
+			verdict = Unsat
+		case "unknown", "timeout":
+			s.LastErr = "solver answered " + strings.TrimSpace(l)
+		}
+	}
+	var model Model
+	if verdict == Sat && wantModel && len(names) > 0 {
+		var gb strings.Builder
+		for _, n := range names {
+			fmt.Fprintf(&gb, "(get-value (%s))\n", values[n].ref())
+		}
+		gb.WriteString("(echo \"@@gv\")\n")
+		io.WriteString(s.in, gb.String())
+		vl, ok2 := s.readUntil("@@gv", s.timeout+5*time.Second)
+		if !ok2 {
+			s.NUnknown++
+			s.restart()
+			return Unknown, nil
+		}
+		model = Model{}
+		vals := parseGetValues(strings.Join(vl, " "))
+		if len(vals) != len(names) {
+			s.LastErr = "get-value parse"
+			s.NUnknown++
+			return Unknown, nil
+		}
+		for i, n := range names {
+			model[n] = vals[i]
+		}
+	}
+	switch verdict {
+	case Sat:
+		s.NSat++
+	case Unsat:
+		s.NUnsat++
+	default:
+		s.NUnknown++
+	}
+	return verdict, model
 }
